@@ -16,13 +16,13 @@ HANDLERS = ["no exception handler", "handler returns True", "handler returns Fal
 
 
 def cfg(tier):
-    return (1, 8) if tier == "quick" else (2, 10)
+    return (1, 6) if tier == "quick" else (2, 10)
 
 
 def params(tier):
     D, L = cfg(tier)
     nt = 2 if tier == "quick" else 3
-    ps = [P("ntask", 0, nt - 1), P("site", 0, 2), P("nested", 0, 1), P("handler", 0, 2)]
+    ps = [P("ntask", 0, nt - 1), P("site", 0, 2), P("nested", 0, 1), P("handler", 0, 2), P("fstart", 0, 1)]
     for i in range(nt):
         ps += [P(f"api{i}", 0, 1), P(f"out{i}", 0, 4)]
     for j in range(D):
@@ -37,8 +37,9 @@ def fn(a, tier):
     nt = 1 + pick(a["ntask"], ntmax)
     site, nested = pick(a["site"], 3), pick(a["nested"], 2)
     apis = [pick(a[f"api{i}"], 2) for i in range(nt)]
-    outs = [pick(a[f"out{i}"], 5) for i in range(nt)]
+    outs = [pick(a[f"out{i}"], 5 if (i == 0 or tier != "quick") else 3) for i in range(nt)]
     handler_kind = pick(a["handler"], 3) if 2 in outs else 0
+    fstart = pick(a["fstart"], 2)  # 1: factory started through the owner's METHOD while another (nested, short-lived) context is current
     tape = DeviationTape([(a[f"gap{j}"], a[f"arm{j}"]) for j in range(D)], L)
     log = []
     info = {"handles": {}, "handler_calls": [], "violations": []}
@@ -56,6 +57,13 @@ def fn(a, tier):
             info[("parent", i)] = ctx.parent
             info[("sees", i)] = (dict(get_resources(RT[0])), dict(get_resources(RT[1])))
             log.append(("begin", i))
+
+            async def own_teardown():
+                with anyio.CancelScope(shield=True):
+                    await anyio.sleep(0)
+                log.append(("ctx_closed", i))
+
+            ctx.add_teardown_callback(own_teardown)
             try:
                 steps = {0: 1, 1: 3, 2: 1, 3: 2, 4: 3}[outs[i]]
                 for _ in range(steps):
@@ -111,13 +119,20 @@ def fn(a, tier):
         info[("waited", i)] = True
         if h in tf.all_task_handles():
             info["violations"].append(("in-set-after-wait_finished", i))
+        if ("begin", i) in log and ("ctx_closed", i) not in log:
+            info["violations"].append(("wait_finished-returned-before-the-tasks-own-context-was-torn-down", i))
         log.append(("waited", i))
 
     async def owner_block(tg):
         async with Context() as owner:
             info["owner"] = owner
             owner.add_resource(before_res, "before", [RT[0]])
-            tf = info["tf"] = await start_background_task_factory(exception_handler=handler if handler_kind else None)
+            if fstart:
+                async with Context():
+                    tf = info["tf"] = await owner.start_background_task_factory(exception_handler=handler if handler_kind else None)
+                # leaving that unrelated nested context must neither wait for nor shut down the owner's factory
+            else:
+                tf = info["tf"] = await start_background_task_factory(exception_handler=handler if handler_kind else None)
             owner.add_resource(after_res, "after", [RT[1]])
             if site == 0:
                 await spawn_all(tf)
@@ -170,7 +185,7 @@ def fn(a, tier):
 
     _, exc, k = run(main, chooser=tape, on_start=on_start)
     summary = {"tasks": [f"{['start_task', 'start_task_soon'][apis[i]]}: {OUTCOMES[outs[i]]}" for i in range(nt)],
-               "spawned_from": SITES[site], "owner": "nested" if nested else "child of an unrelated root", "handler": HANDLERS[handler_kind],
+               "spawned_from": SITES[site], "owner": "nested" if nested else "child of an unrelated root", "handler": HANDLERS[handler_kind], "factory_started_via": "owner.start_background_task_factory() while a nested context was current" if fstart else "shortcut in the owner",
                "schedule": tape.taken}
     raisers = [i for i in range(nt) if outs[i] == 2]
     expect_escape = bool(raisers) and handler_kind != 1
@@ -228,14 +243,14 @@ H = Harness(
     name="T-factory",
     fn=fn,
     params=params,
-    cube=lambda tier: 6,
+    cube=lambda tier: 7,
     title="tasks spawned through a TaskFactory from different sites, with every outcome, handler verdict and owner teardown while tasks run",
     bound_text=lambda tier: f"1-{2 if tier == 'quick' else 3} tasks x {{start_task, start_task_soon}} x outcome{{" + "; ".join(OUTCOMES) + "} x spawned from {"
-    + "; ".join(SITES) + "} x " + "/".join(HANDLERS) + " x owner root-level/nested; observer after EVERY scheduler step; late spawns after teardown; FIFO with "
-    + ("one deviation within 8 decisions" if tier == "quick" else "two deviations"),
+    + "; ".join(SITES) + "} x " + "/".join(HANDLERS) + " x owner root-level/nested x factory started by the shortcut / by the owner's method from inside another nested context; every task has an async teardown callback in its own context; observer after EVERY scheduler step; late spawns after teardown; FIFO with "
+    + ("one deviation within 6 decisions; the second task only returns / keeps running / raises" if tier == "quick" else "two deviations"),
     oracle="task context's parent chain = factory context -> owner, never the spawner's; tasks see exactly the resources present when the factory "
     "started; at every scheduler step: running tasks are in all_task_handles(), tasks whose wait_finished() returned are not, no foreign handles; "
-    "wait_finished() returns for every outcome; cancel() affects only its task; leaving the owner waits for running tasks (none sees a "
+    "wait_finished() returns for every outcome and only after the task's own context has been torn down; cancel() affects only its task; leaving the owner waits for running tasks (none sees a "
     "cancellation); handler called once per escaping Exception, swallowed iff truthy else it leaves the root; late spawns raise and leave no handle",
     outside="handlers that raise; more than 3 tasks",
     stubs=STUBS_COMMON,
